@@ -31,10 +31,10 @@ func catalogue() map[string][][]string {
 			w("SET k1 r RETURN POINT 1 2"), w("SET k1 r FIELD f 1 RETURN WITHFIELDS POINT 1 2"), w("SET k1 a"), w("SET k1"), w("SET k1 a POINT x y"), w("SET k1 a FIELD z 1 POINT 1 2"), {"SET", "k1", "a", "OBJECT", "{bad"}},
 		"FSET": {w("FSET k1 a f 5"), w("FSET k1 a f 1 g x"), w("FSET k1 nope XX f 1"), w("FSET k1 nope f 1"), w("FSET nokey a f 1"), w("FSET k1 a f"), w("FSET k1 a z 1"),
 			w("FSET k1 a f 2 RETURN"), w("FSET k1 a f 3 RETURN WITHFIELDS"), w("FSET k1 nope XX f 1 RETURN"), w("FSET k1 a RETURN f 1")},
-		"FGET":           {w("FGET k1 a f"), w("FGET k1 a nofield"), w("FGET k1 nope f"), w("FGET nokey a f"), w("FGET k1 a")},
-		"GET":            {w("GET k1 a"), w("GET k1 a WITHFIELDS"), w("GET k1 a POINT"), w("GET k1 a BOUNDS"), w("GET k1 a HASH 7"), w("GET k1 b"), w("GET k1 nope"), w("GET nokey a"), w("GET k1"), w("GET k1 a HASH 99"), w("GET k1 a BOGUS")},
+		"FGET":           {w("FGET k1 a g"), w("FGET k1 b x"), w("FGET k1 c properties.n"), w("FGET k1 a f"), w("FGET k1 a nofield"), w("FGET k1 nope f"), w("FGET nokey a f"), w("FGET k1 a")},
+		"GET":            {w("GET k1 c OBJECT"), w("GET k1 a HASH 1"), w("GET k1 a HASH 12"), w("GET k1 a HASH 0"), w("GET k1 b POINT"), w("GET k1 b BOUNDS"), w("GET k1 b HASH 5"), w("GET k1 c POINT"), w("GET k1 c WITHFIELDS BOUNDS"), w("GET k2 a POINT"), w("GET k2 a HASH 6"), w("GET k1 a"), w("GET k1 a WITHFIELDS"), w("GET k1 a POINT"), w("GET k1 a BOUNDS"), w("GET k1 a HASH 7"), w("GET k1 b"), w("GET k1 nope"), w("GET nokey a"), w("GET k1"), w("GET k1 a HASH 99"), w("GET k1 a BOGUS")},
 		"DEL":            {w("DEL k1 a"), w("DEL k1 nope"), w("DEL k1 nope ERRON404"), w("DEL nokey a ERRON404"), w("DEL k1"), w("DEL k1 a BOGUS")},
-		"PDEL":           {w("PDEL k1 a*"), w("PDEL k1 *"), w("PDEL nokey *"), w("PDEL k1")},
+		"PDEL":           {w("PDEL k1 ?"), w("PDEL k1 [ab]"), w("PDEL k2 zz*"), w("PDEL k1 a*"), w("PDEL k1 *"), w("PDEL nokey *"), w("PDEL k1")},
 		"DROP":           {w("DROP k1"), w("DROP nokey"), w("DROP")},
 		"RENAME":         {w("RENAME k1 k5"), w("RENAME k1 k2"), w("RENAME nokey k5"), w("RENAME k1")},
 		"RENAMENX":       {w("RENAMENX k1 k5"), w("RENAMENX k1 k2"), w("RENAMENX nokey k5"), w("RENAMENX k1")},
@@ -45,20 +45,20 @@ func catalogue() map[string][][]string {
 		"EXISTS":         {w("EXISTS k1 a"), w("EXISTS k1 nope"), w("EXISTS nokey a"), w("EXISTS k1")},
 		"FEXISTS":        {w("FEXISTS k1 a f"), w("FEXISTS k1 a nofield"), w("FEXISTS k1 nope f"), w("FEXISTS nokey a f"), w("FEXISTS k1 a")},
 		"TYPE":           {w("TYPE k1"), w("TYPE nokey"), w("TYPE")},
-		"BOUNDS":         {w("BOUNDS k1"), w("BOUNDS nokey"), w("BOUNDS")},
-		"KEYS":           {w("KEYS *"), w("KEYS k1*"), w("KEYS nomatch"), w("KEYS")},
+		"BOUNDS":         {w("BOUNDS k2"), w("BOUNDS k1 extra"), w("BOUNDS k1"), w("BOUNDS nokey"), w("BOUNDS")},
+		"KEYS":           {w("KEYS ?1"), w("KEYS [k]*"), {"KEYS", "k\\1"}, w("KEYS k[1-2]"), w("KEYS *"), w("KEYS k1*"), w("KEYS nomatch"), w("KEYS")},
 		"STATS":          {w("STATS k1"), w("STATS k1 nokey k2"), w("STATS")},
 		"JGET":           {w("JGET k1 b"), w("JGET k1 b x"), w("JGET k1 b x RAW"), w("JGET k1 c properties.n"), w("JGET k1 b nopath"), w("JGET k1 nope"), w("JGET nokey a"), w("JGET k1"), w("JGET k1 b x BOGUS")},
 		"JSET":           {w("JSET k1 b y 2"), w("JSET k1 b y str"), w("JSET k1 b y 7 STR"), w("JSET k1 b y {\"q\":1} RAW"), w("JSET k1 c properties.p 5"), w("JSET k1 newid v 1"), w("JSET k1 b y"), w("JSET k1 b y 1 BOGUS")},
 		"JDEL":           {w("JDEL k1 b x"), w("JDEL k1 c properties.n"), w("JDEL k1 b nopath"), w("JDEL k1 nope x"), w("JDEL nokey a x"), w("JDEL k1 b")},
 		"SCAN":           {{"SCAN", "k1", "WHEREEVALSHA", "@F", "0", "IDS"}, {"SCAN", "k1", "WHEREEVALSHA", "0000000000000000000000000000000000000000", "0"}, w("SCAN k1 NOFIELDS LIMIT 2"), w("SCAN k1 HASHES 5"), w("SCAN k1 WHEREIN f 2 1 2 IDS"), w("SCAN k1"), w("SCAN k1 LIMIT 1"), w("SCAN k1 CURSOR 1 LIMIT 1 IDS"), w("SCAN k1 MATCH a* IDS"), w("SCAN k1 WHERE f 0 2 COUNT"), w("SCAN k1 DESC POINTS"), w("SCAN k1 BOUNDS"), w("SCAN k1 HASHES 5"), w("SCAN k1 NOFIELDS"), w("SCAN nokey"), w("SCAN"), w("SCAN k1 LIMIT x"), w("SCAN k1 BOGUS")},
-		"SEARCH":         {w("SEARCH k1"), w("SEARCH k1 IDS"), w("SEARCH k1 COUNT"), w("SEARCH k1 MATCH h* DESC"), w("SEARCH k1 LIMIT 1"), w("SEARCH nokey"), w("SEARCH"), w("SEARCH k1 BOGUS")},
+		"SEARCH":         {w("SEARCH k1 MATCH * WHERE f 0 2"), w("SEARCH k1 DESC LIMIT 1 CURSOR 1"), w("SEARCH k1 ASC IDS WHEREIN f 1 1"), w("SEARCH k1 NOFIELDS"), w("SEARCH k2"), w("SEARCH k1"), w("SEARCH k1 IDS"), w("SEARCH k1 COUNT"), w("SEARCH k1 MATCH h* DESC"), w("SEARCH k1 LIMIT 1"), w("SEARCH nokey"), w("SEARCH"), w("SEARCH k1 BOGUS")},
 		"NEARBY":         {w("NEARBY k1 POINT 1 2"), w("NEARBY k1 POINT 1 2 100000"), w("NEARBY k1 LIMIT 1 IDS POINT 1 2"), w("NEARBY k1 DISTANCE POINT 1 2 500000"), w("NEARBY k1 DISTANCE IDS POINT 1 2"), w("NEARBY k1 DISTANCE POINT 1 2"), w("NEARBY k1 DISTANCE POINTS POINT 1 2 900000"), w("NEARBY k1 COUNT POINT 1 2"), w("NEARBY nokey POINT 1 2"), w("NEARBY k1"), w("NEARBY k1 POINT x y"), w("NEARBY k1 BOUNDS 1 2 3 4")},
 		"WITHIN":         {w("WITHIN k1 BUFFER 1000 BOUNDS 1 2 3 4"), w("WITHIN k1 BUFFER 0 IDS BOUNDS 1 2 3 4"), w("WITHIN k1 SPARSE 2 BOUNDS 0 0 10 10"), w("WITHIN k1 IDS TILE 0 0 0"), w("WITHIN k1 COUNT QUADKEY 1"), w("WITHIN k1 IDS HASH s0"), w("WITHIN k1 IDS SECTOR 1 2 100000 0 90"), w("WITHIN k1 MVT 0 0 0"), w("WITHIN k1 BUFFER x BOUNDS 1 2 3 4"), w("WITHIN k1 SPARSE 9 BOUNDS 0 0 10 10"), w("WITHIN k1 BOUNDS 0 0 10 10"), w("WITHIN k1 IDS CIRCLE 1 2 100000"), w("WITHIN k1 COUNT BOUNDS 0 0 10 10"), {"WITHIN", "k1", "OBJECT", gPoly}, w("WITHIN k1 GET k2 a"), w("WITHIN k1 TILE 0 0 1"), w("WITHIN k1 QUADKEY 03"), w("WITHIN k1 HASH 9tb"), w("WITHIN k1 SECTOR 1 2 100000 0 90"), w("WITHIN nokey BOUNDS 0 0 1 1"), w("WITHIN k1"), w("WITHIN k1 BOUNDS 0 0"), w("WITHIN k1 GET nokey a")},
 		"INTERSECTS":     {w("INTERSECTS k1 CLIP BOUNDS 0 0 5 5"), {"INTERSECTS", "k1", "BUFFER", "500", "OBJECT", gLine}, w("INTERSECTS k1 SPARSE 1 IDS BOUNDS 0 0 10 10"), w("INTERSECTS k1 MVT 0 0 0"), w("INTERSECTS k1 CLIP IDS BOUNDS 0 0 5 5"), w("INTERSECTS k1 IDS TILE 1 1 1"), w("INTERSECTS k1 BOUNDS 0 0 10 10"), w("INTERSECTS k1 IDS CIRCLE 1 2 100000"), w("INTERSECTS k1 CLIPBY BOUNDS 0 0 5 5 BOUNDS 0 0 10 10"), {"INTERSECTS", "k1", "OBJECT", gLine}, w("INTERSECTS k1 GET k2 a"), w("INTERSECTS nokey BOUNDS 0 0 1 1"), w("INTERSECTS k1"), w("INTERSECTS k1 CIRCLE 1 2")},
-		"TEST":           {{"TEST", "POINT", "1", "2", "WITHIN", "BOUNDS", "0", "0", "10", "10"}, {"TEST", "GET", "k1", "a", "INTERSECTS", "OBJECT", gPoly}, w("TEST POINT 1 2 INTERSECTS CIRCLE 1 2 100"), w("TEST GET nokey a WITHIN BOUNDS 0 0 1 1"), w("TEST POINT 1 2"), w("TEST")},
-		"SETHOOK":        {w("SETHOOK hk2 http://127.0.0.1:1/x " + fence), w("SETHOOK hk1 http://127.0.0.1:1/x WITHIN k9 FENCE DETECT enter BOUNDS 50 50 51 51"), w("SETHOOK hk3 http://127.0.0.1:1/x META a b EX 100 " + fence), w("SETHOOK hk2"), w("SETHOOK hk2 badendpoint " + fence), w("SETHOOK hk2 http://127.0.0.1:1/x NEARBY k9 POINT 50 50 100")},
-		"SETCHAN":        {w("SETCHAN ch2 " + fence), w("SETCHAN ch1 WITHIN k9 FENCE DETECT enter BOUNDS 50 50 51 51"), w("SETCHAN ch3 META a b EX 100 " + fence), w("SETCHAN ch2"), w("SETCHAN ch2 NEARBY k9 POINT 50 50 100")},
+		"TEST":           {w("TEST BOUNDS 0 0 5 5 INTERSECTS CLIP BOUNDS 1 1 9 9"), w("TEST SECTOR 1 2 1000 0 90 WITHIN CIRCLE 1 2 5000"), w("TEST TILE 0 0 0 INTERSECTS QUADKEY 0"), w("TEST HASH s0 WITHIN HASH s"), {"TEST", "OBJECT", gLine, "INTERSECTS", "GET", "k1", "c"}, w("TEST GET k1 b WITHIN BOUNDS 0 0 10 10"), w("TEST POINT 1 2 WITHIN CLIP BOUNDS 0 0 5 5"), w("TEST CIRCLE 1 2 0 INTERSECTS POINT 1 2"), w("TEST POINT 91 181 WITHIN BOUNDS -90 -180 90 180"), {"TEST", "POINT", "1", "2", "WITHIN", "BOUNDS", "0", "0", "10", "10"}, {"TEST", "GET", "k1", "a", "INTERSECTS", "OBJECT", gPoly}, w("TEST POINT 1 2 INTERSECTS CIRCLE 1 2 100"), w("TEST GET nokey a WITHIN BOUNDS 0 0 1 1"), w("TEST POINT 1 2"), w("TEST")},
+		"SETHOOK":        {w("SETHOOK hk4 http://127.0.0.1:1/a,http://127.0.0.1:1/b " + fence), w("SETHOOK hk5 ftp://127.0.0.1/x " + fence), w("SETHOOK hk6 kafka://127.0.0.1:9092/topic " + fence), w("SETHOOK hk7 redis://127.0.0.1:6379/chan " + fence), w("SETHOOK hk8 mqtt://127.0.0.1:1883/t?qos=1 " + fence), w("SETHOOK hk9 nats://127.0.0.1:4222/s " + fence), w("SETHOOK hk10 grpc://127.0.0.1:1 " + fence), w("SETHOOK hk11 disque://127.0.0.1:1/q " + fence), w("SETHOOK hk12 amqp://127.0.0.1:1/q " + fence), w("SETHOOK hk13 sqs://127.0.0.1:1/q " + fence), w("SETHOOK hk14 http:// " + fence), w("SETHOOK hk15 , " + fence), w("SETHOOK hk2 http://127.0.0.1:1/x " + fence), w("SETHOOK hk1 http://127.0.0.1:1/x WITHIN k9 FENCE DETECT enter BOUNDS 50 50 51 51"), w("SETHOOK hk3 http://127.0.0.1:1/x META a b EX 100 " + fence), w("SETHOOK hk2"), w("SETHOOK hk2 badendpoint " + fence), w("SETHOOK hk2 http://127.0.0.1:1/x NEARBY k9 POINT 50 50 100")},
+		"SETCHAN":        {w("SETCHAN ch4 NEARBY k9 FENCE DETECT enter,exit COMMANDS set,del POINT 50 50 100"), w("SETCHAN ch5 NEARBY k9 FENCE NODWELL ROAM k8 * 100"), w("SETCHAN ch6 INTERSECTS k9 WHERE f 1 2 MATCH a* FENCE BOUNDS 50 50 51 51"), w("SETCHAN ch7 NEARBY k9 FENCE DETECT bogus POINT 50 50 100"), w("SETCHAN ch8 NEARBY k9 FENCE COMMANDS bogus POINT 50 50 100"), w("SETCHAN ch9 NEARBY k9 FENCE ROAM k8"), w("SETCHAN ch2 META a EX x NEARBY k9 FENCE POINT 50 50 100"), w("SETCHAN ch2 EX -1 NEARBY k9 FENCE POINT 50 50 100"), w("SETCHAN ch2 " + fence), w("SETCHAN ch1 WITHIN k9 FENCE DETECT enter BOUNDS 50 50 51 51"), w("SETCHAN ch3 META a b EX 100 " + fence), w("SETCHAN ch2"), w("SETCHAN ch2 NEARBY k9 POINT 50 50 100")},
 		"DELHOOK":        {w("DELHOOK hk1"), w("DELHOOK nope"), w("DELHOOK")},
 		"DELCHAN":        {w("DELCHAN ch1"), w("DELCHAN nope"), w("DELCHAN")},
 		"PDELHOOK":       {w("PDELHOOK h*"), w("PDELHOOK nope*"), w("PDELHOOK")},
@@ -88,7 +88,7 @@ func catalogue() map[string][][]string {
 		"CONFIG GET":     {w("CONFIG GET requirepass"), w("CONFIG GET *"), w("CONFIG GET maxmemory"), w("CONFIG GET bogus"), w("CONFIG GET")},
 		"CONFIG SET":     {w("CONFIG SET keepalive 300"), w("CONFIG SET maxmemory 0"), w("CONFIG SET bogus 1"), w("CONFIG SET keepalive"), w("CONFIG SET")},
 		"CONFIG REWRITE": {w("CONFIG REWRITE"), w("CONFIG REWRITE x")},
-		"CLIENT":         {w("CLIENT LIST"), w("CLIENT GETNAME"), w("CLIENT SETNAME me"), w("CLIENT KILL id 999"), w("CLIENT BOGUS"), w("CLIENT")},
+		"CLIENT":         {w("CLIENT KILL addr 1.2.3.4:5"), w("CLIENT KILL 1.2.3.4:5"), w("CLIENT KILL id x"), w("CLIENT SETNAME"), w("CLIENT LIST extra"), w("CLIENT LIST"), w("CLIENT GETNAME"), w("CLIENT SETNAME me"), w("CLIENT KILL id 999"), w("CLIENT BOGUS"), w("CLIENT")},
 		"AOFMD5":         {w("AOFMD5 0 0"), w("AOFMD5 0 10"), w("AOFMD5 0 99999999"), w("AOFMD5 x 0"), w("AOFMD5")},
 		"AOFSHRINK":      {w("AOFSHRINK")},
 		"PUBLISH":        {w("PUBLISH ch1 hello"), w("PUBLISH nochan hello"), w("PUBLISH ch1"), w("PUBLISH")},
